@@ -19,6 +19,8 @@ def check(run):
     try:
         crng = run.sub_rng("C08-closures")
         extra = [genprog.closure_program(crng) for _ in range(150 if run.tier == "quick" else 3000)]
+        import matrixgen
+        extra += matrixgen.sources(run, "c08", subset="closure")
         wits, stats, cstats, srcs = semcheck.run_semantic_check(run, "C08", 40, 600, features={"closure", "ref", "match", "while", "tuple", "struct", "string", "dyn", "bare"}, with_corpus=False, extra_sources=extra)
     except Broken as b:
         broken.append(b)
